@@ -266,6 +266,12 @@ def write_known_gaps():
     _write(os.path.join(V.COQ, "Gen", "KnownGaps.v"), txt)
 
 
+def setup_hook():
+    """bin/setup: coq/Gen/Obs*.v and KnownGaps.v must exist before `make all`"""
+    write_obs(observe("quick"))
+    write_known_gaps()
+
+
 if __name__ == "__main__":
     import sys
     import time
